@@ -882,7 +882,13 @@ func (g *gen) instr(in ssa.Instruction, st State, reach string) string {
 	case *ssa.RunDefers:
 	case *ssa.Send:
 		g.ctx.note("channel send (no-op)")
+		if _, ok := g.ctx.compSort["chanlen"]; ok {
+			g.havocComp(st, "chanlen")
+		}
 	case *ssa.Select:
+		if _, ok := g.ctx.compSort["chanlen"]; ok {
+			g.havocComp(st, "chanlen")
+		}
 		g.vals[x] = g.havocVal("select", x.Type(), st, reach)
 		if !x.Blocking {
 			g.ctx.note("select with default: nondeterministic")
@@ -1209,6 +1215,9 @@ func (g *gen) unop(x *ssa.UnOp, st State, reach string) {
 	case token.ARROW:
 		g.vals[x] = g.havocVal("recv", x.Type(), st, reach)
 		g.ctx.note("channel receive (havoc)")
+		if _, ok := g.ctx.compSort["chanlen"]; ok {
+			g.havocComp(st, "chanlen")
+		}
 	default:
 		g.unsupportedf("unary op %s", x.Op)
 	}
